@@ -64,18 +64,12 @@ func l3Unit(name string, params map[string]int, only string, what string) Unit {
 		Desc: l3Desc + " -- " + what, Bounds: l3Bounds, Quick: q, Thor: deeper(q), Panic: "inconclusive", Only: only}
 }
 
-// deeper: the thorough tier of a shape-grammar unit: document arrays one element longer (up to
-// 3), two extra members per object/map, nullable type lists in either order.
+// deeper: the thorough tier of a shape-grammar unit: two extra members per object/map, nullable
+// type lists in either order, document arrays of up to 2 elements where the quick tier has 1.
 func deeper(q map[string]int) map[string]int {
 	t := mergeParams(q, map[string]int{"E": 2, "ORDER": 1})
-	if _, nodoc := q["NODOC"]; !nodoc {
-		n := q["N"]
-		if n == 0 {
-			n = 2
-		}
-		if n < 3 {
-			t["N"] = n + 1
-		}
+	if _, nodoc := q["NODOC"]; !nodoc && q["N"] == 1 {
+		t["N"] = 2 // (N=3 on the array shapes runs for hours: 2 is the registered bound)
 	}
 	return t
 }
@@ -425,7 +419,24 @@ func init() {
 	})
 }
 
+func textKernels(only string, suffix []string) []Unit {
+	q := map[string]int{"GRID": 0, "GRIDMAG": 36, "RUNTIMEFMT": 1, "L": 14}
+	t := map[string]int{"GRID": 0, "GRIDMAG": 36, "RUNTIMEFMT": 1, "L": 22}
+	mk := func(name, fn, desc, bounds string) Unit {
+		return Unit{Name: "date-time-wrappers/" + name, Harness: "pkg/types:" + fn, Layer: "L1", Only: only, OnlySuffix: suffix,
+			Desc: desc, Bounds: bounds, Quick: q, Thor: t, Panic: "violation"}
+	}
+	model := "package time is a stub written from its documentation for the two layouts the repository uses (DateOnly, TimeOnly): 4-digit year, zero-padded 2-digit fields, day-of-month and leap-year validation, an optional fractional second when parsing; validated by native twins and replays, which run the real package time"
+	return []Unit{
+		mk("date/print-then-parse", "HarnessDatePrintParse", "SerializableDate.MarshalJSON then UnmarshalJSON on an arbitrary valid calendar date (symbolic year 0..9999, month, day with leap years): marshalling succeeds, the text parses back, and to the same date", "years 0..9999; "+model),
+		mk("date/parse-then-print", "HarnessDateParsePrint", "SerializableDate.UnmarshalJSON on L symbolic bytes for every length L: no panic; whenever the bytes are accepted (other than null), MarshalJSON returns exactly those bytes", "lengths 0..13 quick, 0..21 thorough; "+model),
+		mk("time/print-then-parse", "HarnessTimePrintParse", "the same for SerializableTime on an arbitrary time of day (whole seconds)", model),
+		mk("time/parse-then-print", "HarnessTimeParsePrint", "SerializableTime.UnmarshalJSON on L symbolic bytes for every length L: no panic; accepted bytes are reproduced by MarshalJSON", "lengths 0..13 quick, 0..21 thorough; "+model),
+	}
+}
+
 func init() {
+	properties["C02"].Units = append(properties["C02"].Units, textKernels("C02.", nil)...)
 	properties["C13"].Units = append(properties["C13"].Units, Unit{Name: "json-files-vs-yaml-files", Harness: "pkg/generator:HarnessC13Files", Layer: "L3", Only: "C13.",
 		Desc:   "the same two schemas (a root with bounds, a two-element type list, a mixed enum with null, a $ref written without extension that --resolve-extension probing resolves, an allOf branch on the same file) as JSON files and as YAML files on the virtual file system, loaded through the default loaders (extension-based parser choice, FromYAMLFile -> goccy decode -> FixMapKeys -> json.Marshal -> the JSON parser): both spellings generate, and generate byte-identical code",
 		Bounds: "one concrete pair of schema sets; goccy/go-yaml itself is a library (its real decoder runs on the concrete bytes, nothing of it is interpreted); YAML-only features (anchors, tags, non-string keys) are outside",
